@@ -7,7 +7,7 @@ B  K-diff on the same cases:  tokens(real printer output, real scanner) = pr e;
    parser.ParseExpr(text) ~ parse (pr e);  parser.ParseExpr(blank-separated tokens) ~ parse ts.
 C  direct oracle: printer.Fprint -> parser -> structural compare (parentheses stripped), on every
    enumerated tree; a failing tree is keyed by its first operand position that violates `posok`
-   (listed in known_findings.d/C22.txt) or, if it has none, by the tree itself (unlisted).
+   (listed in known_findings.txt) or, if it has none, by the tree itself (unlisted).
 """
 import hashlib
 
